@@ -13,7 +13,11 @@ RULE = ('a live bot (Owner + Misc loaded, production paths) receives PRIVMSG com
         'commands, nested.maximum, reply.error.detailed, nesting off).  The real tokenizer output is fed to the extracted machine and '
         'spec; call log (plugin, matched command, arguments, main/other thread) and final message are diffed; the post-order law, '
         'at-most-once/exactly-once, single-plugin dispatch, qualified-name, ambiguity and disabled clauses are evaluated directly on '
-        'the implementation.  non-trivial = at least one bracket or a dispatch conflict')
+        'the implementation.  Histories: `disable [plugin] cmd` / `enable [plugin] cmd` sent by the owner (and by an ordinary user, who '
+        'must be refused) interleaved with command lines of an ordinary user over plugins with overlapping commands; after every '
+        'operation the reply, Commands._disabled.d and supybot.commands.disabled are diffed against the model, every call is diffed, '
+        'and directly: a command runs only if the operations the bot reported as succeeded left it enabled, and a refused operation '
+        'changes nothing.  non-trivial = at least one bracket, a dispatch conflict or a history')
 TRUSTED = ['str.lower() is modelled for ASCII only (generated command tokens are ASCII); `L >= maxL` in findCallbacksForArgs is modelled '
            'as a length comparison (both are prefixes of the same list, as the source comment says)',
            'the Python stack capacity is an oracle input (k_budget): on ordinary cases it is set above the number of sub-commands; on '
@@ -30,7 +34,9 @@ LEVEL_TEXT = ('Coq theorems over an executable Gallina model of NestedCommandsIr
               'Commands.getCommand with own-name stripping and sub-callbacks, findCallbacksForArgs with own-name/defaultPlugins/importantPlugins rules): '
               'the machine refines a post-order, left-to-right, stop-at-first-stop functional specification for every command tree and every '
               'dispatch/behaviour function whenever the stack budget covers the number of sub-commands, with a refuting witness beyond it; '
-              'nesting refusal; dispatch clauses (single plugin, qualified names on a decidable domain + refutation, ambiguity, disabled).  '
+              'nesting refusal; dispatch clauses (single plugin, qualified names on a decidable domain + refutation, ambiguity, disabled); '
+              'DisabledCommands.add/remove/disabled and Owner.disable/enable as a state machine: after any history inside hist_dom the in-memory '
+              'table answers like the documented semantics (refutations outside, finding C14.F24) and a command left disabled everywhere is never selected.  '
               'The model is tied to the source by regenerated constants/shape checks and a differential run against a live bot on every check.')
 LEVEL_NOTE = ('Trusted: Coq kernel, gen_tables.py/t14.py, extraction + OCaml driver, the Python harness (synthetic plugin generator, canonicaliser); '
               'command behaviours are an arbitrary function in the theorems and a small DSL in the correspondence; Python thread interleaving beyond '
@@ -40,6 +46,7 @@ EXPLANATION = 'C14: evaluation machine and dispatch model of src/callbacks.py; t
 
 KINDS = {'reply': 0, 'echo': 1, 'silent': 2, 'mute': 3, 'err': 4, 'crash': 5, 'foreign': 6}
 SENDER = 'u!i@h'
+OWNER = 'boss!boss@owner.example'
 _S = {}
 STACK_N = 60      # lines with this many sub-commands or more are the stack-exhaustion class
 
@@ -72,6 +79,12 @@ def bot():
     real_queue = irc.queueMsg
     irc.queueMsg = lambda m: sent.append(m)         # observe the reply before wire truncation
     irc.sendMsg = lambda m: sent.append(m)
+    import supybot.ircdb as ircdb
+    u = ircdb.users.newUser()
+    u.name = 'boss'
+    u.addCapability('owner')
+    u.addHostmask(OWNER)
+    ircdb.users.setUser(u)
     C = t14.constants()
     base_defaults = {}
     for k, v in conf.supybot.commands.defaultPlugins._children.items():
@@ -168,6 +181,7 @@ def plugin_table(S):
 def apply_settings(S, st):
     conf, callbacks = S['conf'], S['callbacks']
     callbacks.Commands._disabled.d.clear()
+    conf.supybot.commands.disabled().clear()
     for cmd, plug in st.get('disabled', []):
         # what Owner.disable does (plugins/Owner/plugin.py disable): plugin._disabled.add(command[, plugin.name()])
         callbacks.Commands._disabled.add(cmd, plug)
@@ -221,11 +235,11 @@ def join_threads(S):
             t.join(10)
 
 
-def impl_run(S, line):
+def impl_run(S, line, sender=SENDER):
     irc = S['irc']
     del S['log'][:]
     del S['sent'][:]
-    irc.feedMsg(S['ircmsgs'].privmsg('test', line, prefix=SENDER))
+    irc.feedMsg(S['ircmsgs'].privmsg('test', line, prefix=sender))
     join_threads(S)
     return [list(e) for e in S['log']], canon_outcome(S, list(S['sent']))
 
@@ -443,6 +457,8 @@ def _line_tokens(S, inp):
 
 
 def cls_stack(inp):
+    if 'line' not in inp:
+        return False
     S = bot()
     try:
         return count_subs(_line_tokens(S, inp)) >= STACK_N
@@ -458,7 +474,143 @@ def cls_group_shadow(inp):
     return any(cn(g) in names for p in inp['plugins'] for g, _ in p.get('groups', []))
 
 
-CLASSES = {'many_subcommands_stack': cls_stack, 'subcallback_named_like_plugin': cls_group_shadow}
+def spec_sim(inp):
+    """documented semantics of disable/enable over the owner operations of a history (Python twin of Model.spec_step /
+    hist_dom): returns (in_domain, per-step (G, P) after the step)"""
+    S = bot()
+    cn = S['callbacks'].canonicalName
+    has = {(cn(p['name']), c) for p in inp['plugins'] for c, _ in p['cmds'] if c == cn(c)}
+    G, P, dom, states = set(), set(), True, []
+    for st in inp['steps']:
+        if st['op'] in ('disable', 'enable') and st.get('by', 'owner') == 'owner':
+            c, p = cn(st['cmd']), (cn(st['plugin']) if st.get('plugin') else None)
+            anyp = any(k == c for _, k in P)
+            if st['op'] == 'disable':
+                if c not in S['C']['undisablable']:
+                    if p is None:
+                        dom = dom and not anyp
+                        G.add(c)
+                    elif (p, c) in has and c not in G and (p, c) not in P:
+                        P.add((p, c))
+            else:
+                if p is None:
+                    if c in G:
+                        G.discard(c)
+                    else:
+                        dom = dom and not anyp
+                elif (p, c) in P:
+                    P.discard((p, c))
+        states.append((set(G), set(P)))
+    return dom, states
+
+
+def cls_mixed_scope(inp):
+    """a history that disables a command everywhere, or asks to enable it everywhere while it is not disabled
+    everywhere, at a moment when the command has per-plugin disable entries"""
+    return 'steps' in inp and not spec_sim(inp)[0]
+
+
+CLASSES = {'many_subcommands_stack': cls_stack, 'subcallback_named_like_plugin': cls_group_shadow,
+           'mixed_scope_disable_enable': cls_mixed_scope}
+
+
+# ------------------------------------------------------------------ histories of disable / enable / calls
+def snapshot(S):
+    cn = S['callbacks'].canonicalName
+    d = S['callbacks'].Commands._disabled.d
+    mem = sorted([cn(k), None if v is None else sorted(v)] for k, v in d.items())
+    return mem, sorted(S['conf'].supybot.commands.disabled())
+
+
+def step_line(st):
+    if st['op'] == 'call':
+        return st['line']
+    return ' '.join([st['op']] + ([st['plugin']] if st.get('plugin') else []) + [st['cmd']])
+
+
+def run_history(ctx, S, inp, kind, with_model=True):
+    """a history of `disable [plugin] cmd` / `enable [plugin] cmd` (owner, or an ordinary user who must be refused)
+    interleaved with command lines of an ordinary user"""
+    remove_plugins(S)
+    make_plugins(S, inp['plugins'])
+    apply_settings(S, {})
+    table = plugin_table(S)
+    cn = S['callbacks'].canonicalName
+    success = S['conf'].supybot.replies.success()
+    ctx.case(kind, inp)
+    G, P = set(), set()          # what the operations that SUCCEEDED (as reported by the bot) left disabled
+    prev = snapshot(S)
+    obs, wsteps, fail = [], [], None
+    for i, st in enumerate(inp['steps']):
+        if st['op'] == 'call':
+            toks = S['callbacks'].tokenize(st['line'])
+            ilog, iout = impl_run(S, st['line'])
+            runs = [e for e in ilog if e[0] != '!foreign']
+            for owner, c, args, thr in runs:
+                if c in G or (cn(owner), c) in P:
+                    fail = fail or ('step %d `%s`: %s.%s ran although the operations that succeeded so far left it disabled '
+                                    '(everywhere: %s, per plugin: %s)' % (i + 1, st['line'], owner, c, sorted(G), sorted(P)))
+            obs.append(['call', ilog, iout])
+            wsteps.append([2, toks])
+            if any(isinstance(t, list) for t in toks):
+                raise ValueError('history call lines must be flat')
+        else:
+            by_owner = st.get('by', 'owner') == 'owner'
+            ilog, iout = impl_run(S, step_line(st), OWNER if by_owner else SENDER)
+            ok = iout == ['reply', success]
+            now = snapshot(S)
+            sem = lambda sn: ([e for e in sn[0] if e[1] != []], sn[1])    # an empty plugin set disables nothing
+            if not ok and sem(now) != sem(prev):
+                fail = fail or ('step %d `%s` was refused (%r) but changed the disabled tables: %r -> %r'
+                                % (i + 1, step_line(st), iout, prev, now))
+            if ok and not by_owner:
+                fail = fail or 'step %d `%s` by an ordinary user succeeded' % (i + 1, step_line(st))
+            if ok:
+                c, p = cn(st['cmd']), (cn(st['plugin']) if st.get('plugin') else None)
+                if st['op'] == 'disable':
+                    (G.add(c) if p is None else P.add((p, c)))
+                else:
+                    (G.discard(c) if p is None else P.discard((p, c)))
+            prev = now
+            if by_owner:
+                obs.append(['op', ok, now[0], now[1]])
+                plug = None
+                if st.get('plugin'):
+                    cb = S['irc'].getCallback(st['plugin'])
+                    plug = cb.name() if cb else None
+                wsteps.append([0 if st['op'] == 'disable' else 1, wire.opt(plug), cn(st['cmd'])])
+    if fail:
+        ctx.fail(inp, fail)
+    if not with_model:
+        return None
+    beh = [[p['name'], '', c, KINDS[k]] for p in inp['plugins'] for c, k in p['cmds']]
+    env = [table, [], [], sorted(S['base_important'])]
+    behs = [beh, False, S['conf'].supybot.replies.error(), S['indexerr']]
+    return {'hist': True, 'inp': inp, 'table': table, 'obs': obs, 'wire': [3, [env, behs, wsteps]]}
+
+
+def finish_history(ctx, S, r, o):
+    inp, table = r['inp'], r['table']
+    if len(o) != len(r['obs']):
+        ctx.disagree(inp, len(o), len(r['obs']), 'history length')
+        return
+    for i, (ob, mo) in enumerate(zip(r['obs'], o)):
+        if ob[0] == 'op':
+            mem = sorted([wire.s(kv[0]), wire.o(kv[1], lambda v: sorted(wire.ls(v)))] for kv in mo[1])
+            m = [bool(mo[0]), mem, sorted(wire.ls(mo[2]))]
+            if m != ob[1:]:
+                ctx.disagree(inp, ['step', i + 1] + m, ['step', i + 1] + ob[1:], 'disable/enable: success, Commands._disabled.d, supybot.commands.disabled')
+                return
+        else:
+            mlog, mout, tag = dec_status(mo)
+            ilog, iout = ob[1], ob[2]
+            if mout == ['foreign'] or any(e[0] == '!foreign' for e in ilog):
+                continue
+            res = [list(resolve_entry(S, table, e[0], e[1])) + [e[2], e[3]] for e in mlog]
+            if res != ilog or mout != iout:
+                ctx.disagree(inp, ['step', i + 1, res, mout], ['step', i + 1, ilog, iout], 'history: call log + final message')
+                return
+
 
 
 # ------------------------------------------------------------------ one case
@@ -497,6 +649,9 @@ def finish_cases(ctx, S, recs):
     outs = ctx.model([r['wire'] for r in recs])
     for r, o in zip(recs, outs):
         if o is None:
+            continue
+        if r.get('hist'):
+            finish_history(ctx, S, r, o)
             continue
         inp, table, ilog, iout = r['inp'], r['table'], r['ilog'], r['iout']
         mlog, mout, tag = dec_status(o[0])
@@ -625,10 +780,70 @@ W_GROUP = {'plugins': [{'name': 'Al', 'cmds': [['a', 'reply']]}, {'name': 'Ga', 
            'settings': {}, 'line': 'al a 1'}
 
 
+HC = ['a', 'b', 'c', 'e', 'dup', 'x1']
+_P2 = [{'name': 'Al', 'cmds': [['a', 'reply'], ['dup', 'reply']]}, {'name': 'Be', 'cmds': [['a', 'reply'], ['b', 'echo']]}]
+
+
+def _ops(*xs):
+    out = []
+    for x in xs:
+        w = x.split()
+        if w[0] in ('disable', 'enable', 'udisable', 'uenable'):
+            st = {'op': w[0].lstrip('u') if w[0][0] == 'u' else w[0], 'cmd': w[-1]}
+            if len(w) == 3:
+                st['plugin'] = w[1]
+            if w[0][0] == 'u':
+                st['by'] = 'user'
+            out.append(st)
+        else:
+            out.append({'op': 'call', 'line': x})
+    return out
+
+
+HCORPUS = [
+    {'plugins': _P2, 'steps': _ops('al a 1', 'disable a', 'al a', 'be a', 'a', 'enable Al a', 'al a', 'be a', 'a', 'enable a', 'al a 2', 'be a')},
+    {'plugins': _P2, 'steps': _ops('disable Al a', 'al a', 'be a 1', 'a 1', 'enable Be a', 'al a', 'enable Al a', 'al a 3', 'enable Al a')},
+    {'plugins': _P2, 'steps': _ops('disable Al a', 'disable Be a', 'a', 'enable Al a', 'a 1', 'enable Be a', 'a', 'enable a')},
+    {'plugins': _P2, 'steps': _ops('disable a', 'disable Al a', 'disable a', 'enable a', 'enable a', 'al a')},
+    {'plugins': _P2, 'steps': _ops('udisable a', 'al a', 'disable a', 'uenable a', 'al a', 'disable enable', 'disable identify', 'disable Al zz', 'disable zz', 'enable zz')},
+    {'plugins': _P2, 'steps': _ops('disable D_UP', 'dup', 'al dup', 'enable dup', 'dup 1', 'disable al DUP', 'al dup', 'enable AL d-up', 'al dup 2')},
+]
+# witnesses of finding C14.F24 (both in class mixed_scope_disable_enable)
+W_MIXED = {'plugins': _P2, 'steps': _ops('disable Al a', 'enable a', 'al a 1')}
+W_MIXED2 = {'plugins': _P2, 'steps': _ops('disable Al a', 'disable a', 'enable a', 'al a 1')}
+
+
+def gen_history(rng):
+    names = rng.sample(PNAMES, rng.randint(2, 3))
+    plugins = [{'name': nm, 'threaded': rng.random() < 0.15,
+                'cmds': [[c, rng.choice(['reply', 'reply', 'echo', 'silent', 'err'])] for c in rng.sample(HC, rng.randint(2, 4))]} for nm in names]
+    pool = rng.sample(HC, rng.randint(1, 2))
+    steps = []
+    for _ in range(rng.randint(5, 14)):
+        r = rng.random()
+        c = rng.choice(pool) if rng.random() < 0.9 else rng.choice(['enable', 'identify', 'zz'] + HC)
+        pn = rng.choice(names)
+        if r < 0.4:
+            line = ([rng.choice([pn, pn.lower()])] if rng.random() < 0.6 else []) + [rng.choice([c, c, c.upper()])] + rng.sample(['1', 'x'], rng.randint(0, 1))
+            steps.append({'op': 'call', 'line': ' '.join(line)})
+        else:
+            st = {'op': 'disable' if r < 0.7 else 'enable', 'cmd': rng.choice([c, c, c, c.upper(), c[0] + '_' + c[1:]])}
+            if rng.random() < 0.5:
+                st['plugin'] = rng.choice([pn, pn.lower(), pn.upper()])
+            if rng.random() < 0.08:
+                st['by'] = 'user'
+            steps.append(st)
+    return {'plugins': plugins, 'steps': steps}
+
+
 def run(ctx):
     S = bot()
     rng = ctx.rng
     recs = []
+    for h in HCORPUS + [W_MIXED, W_MIXED2]:
+        recs.append(run_history(ctx, S, h, 'history-corpus'))
+    for i in range(ctx.n(500)):
+        recs.append(run_history(ctx, S, gen_history(rng), 'history'))
     for base, lines in CORPUS:
         for line in lines:
             recs.append(run_case(ctx, S, dict(base, line=line), 'corpus'))
@@ -673,7 +888,10 @@ def run(ctx):
 def replay(ctx, inp):
     S = bot()
     sub = type(ctx)(ctx.pid, ctx.tier, ctx.seed, {'model_ok': False})
-    run_case(sub, S, inp, 'replay', with_model=False)
+    if 'steps' in inp:
+        run_history(sub, S, inp, 'replay', with_model=False)
+    else:
+        run_case(sub, S, inp, 'replay', with_model=False)
     remove_plugins(S)
     apply_settings(S, {})
     return sub.failures[0]['detail'] if sub.failures else None
@@ -681,6 +899,15 @@ def replay(ctx, inp):
 
 def shrink(ctx, inp):
     S = bot()
+    if 'steps' in inp:
+        from lib.shrink import shrink_seq
+        steps = shrink_seq(inp['steps'], lambda st: replay(ctx, dict(inp, steps=st)) is not None, budget=200)
+        cur = dict(inp, steps=steps)
+        for i in range(len(cur['plugins']) - 1, -1, -1):
+            c = dict(cur, plugins=cur['plugins'][:i] + cur['plugins'][i + 1:])
+            if c['plugins'] and replay(ctx, c) is not None:
+                cur = c
+        return cur
     cur = inp
 
     def fails(c):
